@@ -277,6 +277,21 @@ func (g *Grammar) NontermID(nonterm int) string {
 	return g.Syms[g.NumTokens+nonterm].ID
 }
 
+// IsLookaheadInput returns true if the input with a given index is the target of a runtime
+// lookahead predicate, i.e. the generated parser needs a function answering whether the
+// remaining input starts with it. These are the synthetic inputs plus the user-declared no-eoi
+// inputs that lookahead predicates refer to.
+func (g *Grammar) IsLookaheadInput(index int) bool {
+	for _, rule := range g.Parser.Tables.Lookaheads {
+		for _, c := range rule.Cases {
+			if int(c.Predicate.Input) == index {
+				return true
+			}
+		}
+	}
+	return false
+}
+
 func (g *Grammar) NeedsSession() bool {
 	return len(g.Parser.Tables.Lookaheads) > 0 && (g.Options.RecursiveLookaheads || g.Options.Cancellable)
 }
